@@ -68,6 +68,7 @@ pub fn run_set(run: &Run) -> &'static str {
         let p = match ev {
             Op::NewBuilder { proto, .. } => Some(*proto),
             Op::CoreIssue { proto, .. } => Some(*proto),
+            Op::ForeignIssue { proto, .. } => Some(*proto),
             Op::NewVerifier { spec, .. } => Some(spec.proto),
             _ => None,
         };
